@@ -278,27 +278,26 @@ impl Tzif {
         let b_search_result = db.transition_times.binary_search(seconds);
 
         let estimated_idx = match b_search_result {
-            // TODO: Double check returning early here with tests.
-            Ok(idx) => return Ok(get_local_record(db, idx).into()),
-            Err(idx) if idx == 0 => {
-                return Ok(LocalTimeRecordResult::Single(
-                    get_local_record(db, idx).into(),
-                ))
-            }
-            Err(idx) => {
-                if db.transition_times.len() <= idx {
-                    // The transition time provided is beyond the length of
-                    // the available transition time, so the time zone is
-                    // resolved with the POSIX tz string.
-                    return resolve_posix_tz_string(
-                        self.posix_tz_string()
-                            .ok_or(TemporalError::general("Could not resolve time zone."))?,
-                        seconds.0,
-                    );
-                }
-                idx
-            }
+            // NOTE: an exact hit belongs to the period that starts at that transition.
+            Ok(idx) => idx + 1,
+            Err(idx) => idx,
         };
+        if estimated_idx == 0 {
+            // NOTE: time type 0 applies before the first transition.
+            return Ok(LocalTimeRecordResult::Single(
+                db.local_time_type_records[0].into(),
+            ));
+        }
+        if db.transition_times.len() <= estimated_idx {
+            // The transition time provided is beyond the length of
+            // the available transition time, so the time zone is
+            // resolved with the POSIX tz string.
+            return resolve_posix_tz_string(
+                self.posix_tz_string()
+                    .ok_or(TemporalError::general("Could not resolve time zone."))?,
+                seconds.0,
+            );
+        }
 
         // The estimated index will be off based on the amount missing
         // from the lack of offset.
@@ -318,15 +317,21 @@ impl Tzif {
         let current_transition = db.transition_times[new_idx];
         let current_diff = *seconds - current_transition;
 
-        let initial_record = get_local_record(db, new_idx - 1);
+        // NOTE: time type 0 applies before the first transition.
+        let initial_record = if new_idx == 0 {
+            db.local_time_type_records[0]
+        } else {
+            get_local_record(db, new_idx - 1)
+        };
         let next_record = get_local_record(db, new_idx);
 
         // Adjust for offset inversion from northern/southern hemisphere.
         let offset_range = offset_range(initial_record.utoff.0, next_record.utoff.0);
         match offset_range.contains(&current_diff.0) {
-            true if next_record.is_dst => Ok(LocalTimeRecordResult::Empty),
+            // NOTE: a local time is skipped when the offset increases, whatever the DST flag says.
+            true if next_record.utoff > initial_record.utoff => Ok(LocalTimeRecordResult::Empty),
             true => Ok((next_record, initial_record).into()),
-            false if current_diff <= initial_record.utoff => Ok(initial_record.into()),
+            false if current_diff < initial_record.utoff => Ok(initial_record.into()),
             false => Ok(next_record.into()),
         }
     }
